@@ -56,9 +56,27 @@ Definition verify_same_procfs_mnt (h : phandle) (fd : Z) : prog (result unit eki
 Definition procfs_flags_invalid (oflags : N) : bool :=
   intersects oflags PROCFS_INVALID_FLAGS || has oflags PROCFS_INVALID_CONTAINS.
 
+(* bounded EAGAIN retry shared by the openat2-based resolvers *)
+Fixpoint openat2_retry (n : nat) (root : Z) (path : bytes) (oflags resolve : N)
+  : prog (result Z ekind) :=
+  match n with
+  | O => Ret (Err SafetyViolation)
+  | S m =>
+      r <- w_openat2 fz root path oflags 0 resolve ;;
+      match r with
+      | Ok fd => Ret (Ok fd)
+      | Err e =>
+          if N.eqb e EAGAIN then openat2_retry m root path oflags resolve
+          else Ret (Err (OsError e))
+      end
+  end.
+
+(* PROCFS_OPENAT2_RETRIES = 0: one shot, EAGAIN surfaces as an OS error *)
 Definition openat2_resolve (root : Z) (path : bytes) (oflags rflags : N) : prog (result Z ekind) :=
   if negb cfg_openat2 then Ret (Err NotSupported) else
-  os (w_openat2 fz root path oflags 0 (N.lor PROCFS_OPENAT2_RESOLVE rflags)).
+  if N.eqb PROCFS_OPENAT2_RETRIES 0
+  then os (w_openat2 fz root path oflags 0 (N.lor PROCFS_OPENAT2_RESOLVE rflags))
+  else openat2_retry (N.to_nat PROCFS_OPENAT2_RETRIES) root path oflags (N.lor PROCFS_OPENAT2_RESOLVE rflags).
 
 Definition is_symlink_mode (m : N) : bool := N.eqb (N.land m S_IFMT) S_IFLNK.
 
@@ -174,7 +192,9 @@ Definition try_from_fd (inner : Z) : prog (result phandle ekind) :=
   | Ok _ =>
       r <- w_fstatat fz inner [] ;;
       match r with
-      | Err _ => Panic PANIC_FSTAT_PROC
+      | Err e =>
+          if TRY_FROM_FD_FSTAT_PANICS then Panic PANIC_FSTAT_PROC
+          else close inner ;;; Ret (Err (OsError e))
       | Ok meta =>
           if negb (N.eqb (st_ino meta) PROC_ROOT_INO) then close inner ;;; Ret (Err SafetyViolation)
           else
